@@ -517,11 +517,16 @@ fn mode_threads(out: &mut Out, opts: &ObsOpts, listfile: &str) -> io::Result<()>
             // Same file, two more times.
             let repeat_ok = (0..2).all(|_| observe_file_rotated(&file, &opts, 0) == o0);
 
-            // Same bytes loaded again.
-            let reload_ok = match AsepriteFile::read(&data[..]) {
+            // Same bytes loaded again: from the slice, one byte at a time, through a small
+            // BufReader, and from the file itself (read_file).
+            let same = |r: Result<AsepriteFile, AsepriteParseError>| match r {
                 Ok(f2) => observe_file_rotated(&f2, &opts, 0) == o0,
                 Err(_) => false,
             };
+            let reload_ok = same(AsepriteFile::read(&data[..]))
+                && same(AsepriteFile::read(OneByteReader { data: &data, pos: 0 }))
+                && same(AsepriteFile::read(BufReader::with_capacity(7, Cursor::new(data.clone()))))
+                && same(AsepriteFile::read_file(Path::new(&path)));
 
             // Same bytes loaded a third time; before the canonical observation every image-producing
             // accessor is called once in the opposite order (last frame / last layer / last tileset
@@ -566,6 +571,41 @@ fn mode_threads(out: &mut Out, opts: &ObsOpts, listfile: &str) -> io::Result<()>
                     Ok(text) => threads_ok &= text == o0,
                     // re-raise: reported as `99 0` below
                     Err(payload) => std::panic::resume_unwind(payload),
+                }
+            }
+
+            // Cold start: a freshly loaded sprite whose very first accessor calls come from 16
+            // threads at once (anything built lazily on first use is built under contention).
+            for _round in 0..2 {
+                let fresh = match AsepriteFile::read(&data[..]) {
+                    Ok(f) => f,
+                    Err(_) => {
+                        threads_ok = false;
+                        break;
+                    }
+                };
+                let barrier = Barrier::new(NUM_THREADS);
+                let texts: Vec<std::thread::Result<String>> = std::thread::scope(|scope| {
+                    let handles: Vec<_> = (0..NUM_THREADS)
+                        .map(|t| {
+                            let (file, opts, barrier) = (&fresh, &opts, &barrier);
+                            std::thread::Builder::new()
+                                .stack_size(WORKER_STACK)
+                                .spawn_scoped(scope, move || {
+                                    barrier.wait();
+                                    // half of the threads start with the tile / cel sections
+                                    observe_file_rotated(file, opts, if t % 2 == 0 { 2 } else { 3 })
+                                })
+                                .expect("cannot spawn scoped thread")
+                        })
+                        .collect();
+                    handles.into_iter().map(|h| h.join()).collect()
+                });
+                for t in texts {
+                    match t {
+                        Ok(text) => threads_ok &= text == o0,
+                        Err(payload) => std::panic::resume_unwind(payload),
+                    }
                 }
             }
 
